@@ -106,17 +106,148 @@ Proof.
     first [apply same_toks_refl | assumption | idtac].
 Qed.
 
+(* ------------------------------------------------------------------------- K-free scans
+   The quantifier handler and the indexed-identifier handler of the machine run a piece of code that
+   only consumes tokens and updates the cache / symbol table, and then hand over to the rest of the
+   loop.  That piece is restated without the continuation. *)
+Fixpoint quant_scan (k : nat) (cur : string) (vrs : list (string * var)) (sb : pstate)
+  : res (list (string * var)) :=
+  match k with
+  | O => RErr EUnmodelled sb
+  | S k' =>
+      if String.eqb cur ")" then ROk vrs sb
+      else if negb (String.eqb cur "(") then RErr ESyntax sb
+      else
+        do vname , sb1 <- parse_atom sb ;;
+        do pt , sb2 <- parse_ty (fuel_of sb1) sb1 ;;
+        match pt with
+        | PTy t =>
+            do v , sb3 <- quantified_var vname t sb2 ;;
+            let var := match v with T (OSymbol n ty) _ => (n, ty) | _ => (vname, t) end in
+            let sb4 := cache_bind vname (ITerm v) sb3 in
+            do _ , sb5 <- consume_closing sb4 ;;
+            do c , sb6 <- next_tok sb5 ;;
+            quant_scan k' c (vrs ++ [(vname, var)]) sb6
+        | _ => RErr EValue sb2
+        end
+  end.
+Definition quant_entry (st1 : pstate) : res (list (string * var)) :=
+  do _ , st2 <- consume_opening st1 ;;
+  do _ , st3 <- consume_opening st2 ;;
+  quant_scan (fuel_of st3) "(" [] st3.
+
+Definition quant_frame (fa : bool) (vrs : list (string * var)) : list item := [IVars vrs; IQuant fa; IExitQuant].
+
+Lemma quant_vars_scan K fa stk : forall k cur vrs sb,
+  quant_vars K k fa stk cur vrs sb =
+  (do vrs' , sb' <- quant_scan k cur vrs sb ;;
+   match push_items [IExitQuant; IQuant fa; IVars vrs'] stk with
+   | Some stk' => K stk' sb'
+   | None => RErr EOther sb'
+   end).
+Proof.
+  induction k as [|k IH]; intros cur vrs sb; [reflexivity|].
+  cbn [quant_vars quant_scan]. destruct (cur =? ")"); [reflexivity|].
+  destruct (negb (cur =? "(")); [reflexivity|].
+  destruct (parse_atom sb) as [vname sb1|e sb1]; [|reflexivity]. cbn [bind].
+  destruct (parse_ty (fuel_of sb1) sb1) as [pt sb2|e sb2]; [|reflexivity]. cbn [bind].
+  destruct pt; try reflexivity.
+  destruct (quantified_var vname t sb2) as [v sb3|e sb3]; [|reflexivity]. cbn [bind].
+  destruct (consume_closing _) as [u sb5|e sb5]; [|reflexivity]. cbn [bind].
+  destruct (next_tok sb5) as [c sb6|e sb6]; [|reflexivity]. cbn [bind]. apply IH.
+Qed.
+Lemma handle_quant_scan K fa stk st1 :
+  handle_quant K fa stk st1 =
+  (do vrs' , sb' <- quant_entry st1 ;;
+   match push_items [IExitQuant; IQuant fa; IVars vrs'] stk with
+   | Some stk' => K stk' sb'
+   | None => RErr EOther sb'
+   end).
+Proof.
+  unfold handle_quant, quant_entry.
+  destruct (consume_opening st1) as [u st2|e st2]; [|reflexivity]. cbn [bind].
+  destruct (consume_opening st2) as [u2 st3|e st3]; [|reflexivity]. cbn [bind]. apply quant_vars_scan.
+Qed.
+
+(* (_ name idx ..) for the indexed bit-vector functions: the thunk that the handler pushes *)
+Definition int_arg1 (st : pstate) (mk : Z -> item) : res item :=
+  do a , st' <- parse_atom st ;;
+  match py_int a with Some z => ROk (mk z) st' | None => RErr ESyntax st' end.
+Definition underscore_item (st1 : pstate) : res item :=
+  do op , st2 <- parse_atom st1 ;;
+  if String.eqb op "extract" then
+    do send , st3 <- parse_atom st2 ;;
+    do sstart , st4 <- parse_atom st3 ;;
+    match py_int sstart, py_int send with
+    | Some a, Some b => ROk (IThunkIdx (FExtract a b)) st4
+    | _, _ => RErr ESyntax st4
+    end
+  else if String.eqb op "zero_extend" then int_arg1 st2 (fun z => IThunkIdx (FZext z))
+  else if String.eqb op "repeat" then int_arg1 st2 (fun z => IThunkIdx (FRepeat z))
+  else if String.eqb op "rotate_left" then int_arg1 st2 (fun z => IThunkIdx (FRol z))
+  else if String.eqb op "rotate_right" then int_arg1 st2 (fun z => IThunkIdx (FRor z))
+  else if String.eqb op "sign_extend" then int_arg1 st2 (fun z => IThunkIdx (FSext z))
+  else RErr EUnmodelled st2.
+
+Lemma int_arg_item K stk st mk x st' :
+  int_arg1 st mk = ROk x st' ->
+  int_arg st (fun z st0 => push_then K (mk z) stk st0) = push_then K x stk st'.
+Proof.
+  unfold int_arg1, int_arg. destruct (parse_atom st) as [a s1|e s1]; cbn [bind]; [|discriminate].
+  destruct (py_int a); [|discriminate]. intros H; now inversion H.
+Qed.
+Lemma handle_underscore_item K stk st1 x st' :
+  underscore_item st1 = ROk x st' -> handle_underscore K stk st1 = push_then K x stk st'.
+Proof.
+  unfold underscore_item, handle_underscore.
+  destruct (parse_atom st1) as [op st2|e st2]; cbn [bind]; [|discriminate].
+  destruct (op =? "extract").
+  - destruct (parse_atom st2) as [send st3|e st3]; cbn [bind]; [|discriminate].
+    destruct (parse_atom st3) as [sstart st4|e st4]; cbn [bind]; [|discriminate].
+    destruct (py_int sstart); [|discriminate]. destruct (py_int send); [|discriminate].
+    intros H; now inversion H.
+  - destruct (op =? "zero_extend"); [apply int_arg_item|].
+    destruct (op =? "repeat"); [apply int_arg_item|].
+    destruct (op =? "rotate_left"); [apply int_arg_item|].
+    destruct (op =? "rotate_right"); [apply int_arg_item|].
+    destruct (op =? "sign_extend"); [apply int_arg_item|]. discriminate.
+Qed.
+
 (* ------------------------------------------------------------------------- the recursive reading *)
 Definition is_paren (a : string) : bool := String.eqb a "(" || String.eqb a ")".
 (* heads handled as plain applications: an operator of the [interpreted] table, or any other
    token (a declared / defined function name) *)
 Definition app_head (h : string) : bool :=
   match alookup h interpreted_table with Some (HOp _) | None => true | _ => false end.
+Definition quant_head (h : string) : option bool :=
+  match alookup h interpreted_table with Some (HQuant fa) => Some fa | _ => None end.
 
+Fixpoint list_eqs (a b : list string) : bool :=
+  match a, b with
+  | [], [] => true
+  | x :: r, y :: r' => String.eqb x y && list_eqs r r'
+  | _, _ => false
+  end.
+Lemma list_eqs_eq a : forall b, list_eqs a b = true -> a = b.
+Proof.
+  induction a as [|x r IH]; destruct b as [|y r']; cbn; try discriminate; [reflexivity|].
+  intros H%andb_true_iff. destruct H as [H1%String.eqb_eq H2]. subst. f_equal. now apply IH.
+Qed.
+Lemma list_eqs_refl a : list_eqs a a = true.
+Proof. induction a; cbn; [reflexivity | now rewrite String.eqb_refl]. Qed.
+
+(* the fragment: atoms; applications of table operators / function names; quantifiers (binder list
+   not inspected: whatever the machine's scan makes of it); applications of an indexed identifier *)
 Fixpoint simpleb (x : sexp) : bool :=
   match x with
   | Atom a => negb (is_paren a)
-  | SList (Atom h :: args) => negb (is_paren h) && app_head h && forallb simpleb args
+  | SList (Atom h :: rest) =>
+      negb (is_paren h) &&
+      match quant_head h with
+      | Some _ => match rest with [SList _; body] => simpleb body | _ => false end
+      | None => app_head h && forallb simpleb rest
+      end
+  | SList (SList (Atom u :: _) :: args) => String.eqb u "_" && forallb simpleb args
   | SList _ => false
   end.
 
@@ -136,41 +267,102 @@ Section ElabList.
     end.
 End ElabList.
 
+(* [check_toks before n after]: the scan consumed exactly n tokens (elab is a proof device: this
+   test is what ties the token-driven scans to the shape of the s-expression) *)
+Definition check_toks (before : pstate) (n : nat) (after : pstate) : bool :=
+  list_eqs (toks after) (skipn n (toks before)).
+
 Fixpoint elab (x : sexp) (s : pstate) {struct x} : res item :=
+  let fix go (l : list sexp) (st : pstate) {struct l} : res (list item) :=
+      match l with
+      | [] => ROk [] st
+      | y :: r => do i , st1 <- elab y st ;; do r' , st2 <- go r st1 ;; ROk (i :: r') st2
+      end in
   match x with
   | Atom a => atom a (pop1 s)
-  | SList (Atom h :: args) =>
-      do hi , s1 <- elab_head h (pop1 (pop1 s)) ;;
-      do its , s2 <- (fix go (l : list sexp) (st : pstate) {struct l} : res (list item) :=
-                        match l with
-                        | [] => ROk [] st
-                        | y :: r => do i , st1 <- elab y st ;; do r' , st2 <- go r st1 ;; ROk (i :: r') st2
-                        end) args s1 ;;
-      call hi its (pop1 s2)
-  | SList _ => RErr EUnmodelled s
+  | SList (Atom h :: rest) =>
+      match quant_head h with
+      | Some fa =>
+          match rest with
+          | [SList bs; body] =>
+              let s1 := pop1 (pop1 s) in
+              do vrs , sb <- quant_entry s1 ;;
+              if check_toks s1 (List.length (flatten (SList bs))) sb then
+                do b , s2 <- elab body sb ;;
+                call IExitQuant [IQuant fa; IVars vrs; b] (pop1 s2)
+              else RErr EUnmodelled sb
+          | _ => RErr EUnmodelled s
+          end
+      | None =>
+          do hi , s1 <- elab_head h (pop1 (pop1 s)) ;;
+          do its , s2 <- go rest s1 ;;
+          call hi its (pop1 s2)
+      end
+  | SList (SList hd :: args) =>
+      let s1 := pop1 (pop1 (pop1 s)) in                         (* "(" "(" "_" *)
+      do th , s2 <- underscore_item s1 ;;
+      if check_toks s1 (List.length (flat_map flatten (tl hd))) s2 then
+        do hi , s3 <- call th [] (pop1 s2) ;;                    (* ")" *)
+        do its , s4 <- go args s3 ;;
+        call hi its (pop1 s4)
+      else RErr EUnmodelled s2
+  | SList [] => RErr EUnmodelled s
   end.
 Definition elab_list := elab_list_with elab.
 
-Lemma elab_app h args s :
+Lemma elab_go l : forall st,
+  (fix go (l : list sexp) (st : pstate) {struct l} : res (list item) :=
+     match l with
+     | [] => ROk [] st
+     | y :: r => do i , st1 <- elab y st ;; do r' , st2 <- go r st1 ;; ROk (i :: r') st2
+     end) l st = elab_list l st.
+Proof.
+  induction l as [|y r IH]; intros st; [reflexivity|]. cbn [elab_list elab_list_with].
+  destruct (elab y st); [|reflexivity]. cbn [bind]. rewrite IH. reflexivity.
+Qed.
+
+Lemma app_head_not_quant h : app_head h = true -> quant_head h = None.
+Proof. unfold app_head, quant_head. destruct (alookup h interpreted_table) as [[]|]; try discriminate; reflexivity. Qed.
+
+Lemma elab_app h args s : app_head h = true ->
   elab (SList (Atom h :: args)) s =
   (do hi , s1 <- elab_head h (pop1 (pop1 s)) ;; do its , s2 <- elab_list args s1 ;; call hi its (pop1 s2)).
 Proof.
-  cbn [elab]. destruct (elab_head h (pop1 (pop1 s))) as [hi s1|e s1]; [|reflexivity]. cbn [bind].
-  assert (E : forall l st, (fix go (l : list sexp) (st : pstate) {struct l} : res (list item) :=
-                        match l with
-                        | [] => ROk [] st
-                        | y :: r => do i , st1 <- elab y st ;; do r' , st2 <- go r st1 ;; ROk (i :: r') st2
-                        end) l st = elab_list l st).
-  { induction l as [|y r IH]; intros st; [reflexivity|]. cbn [elab_list elab_list_with].
-    destruct (elab y st); [|reflexivity]. cbn [bind]. rewrite IH. reflexivity. }
-  now rewrite E.
+  intros Hh. cbn [elab]. rewrite (app_head_not_quant h Hh).
+  destruct (elab_head h (pop1 (pop1 s))) as [hi s1|e s1]; [|reflexivity]. cbn [bind]. now rewrite elab_go.
+Qed.
+Lemma elab_quant h fa bs body s : quant_head h = Some fa ->
+  elab (SList [Atom h; SList bs; body]) s =
+  (let s1 := pop1 (pop1 s) in
+   do vrs , sb <- quant_entry s1 ;;
+   if check_toks s1 (List.length (flatten (SList bs))) sb then
+     do b , s2 <- elab body sb ;; call IExitQuant [IQuant fa; IVars vrs; b] (pop1 s2)
+   else RErr EUnmodelled sb).
+Proof. intros Hq. cbn [elab]. now rewrite Hq. Qed.
+Lemma elab_indexed hd args s :
+  elab (SList (SList hd :: args)) s =
+  (let s1 := pop1 (pop1 (pop1 s)) in
+   do th , s2 <- underscore_item s1 ;;
+   if check_toks s1 (List.length (flat_map flatten (tl hd))) s2 then
+     do hi , s3 <- call th [] (pop1 s2) ;; do its , s4 <- elab_list args s3 ;; call hi its (pop1 s4)
+   else RErr EUnmodelled s2).
+Proof.
+  cbn [elab]. cbv zeta. destruct (underscore_item _) as [th s2|e s2]; [|reflexivity]. cbn [bind].
+  destruct (check_toks _ _ s2); [|reflexivity].
+  destruct (call th [] (pop1 s2)) as [hi s3|e s3]; [|reflexivity]. cbn [bind]. now rewrite elab_go.
 Qed.
 
 (* number of loop iterations the machine spends on x *)
 Fixpoint cost (x : sexp) : nat :=
   match x with
   | Atom _ => 1
-  | SList l => 1 + fold_right (fun y n => cost y + n) 0 l
+  | SList (Atom h :: rest) =>
+      match quant_head h with
+      | Some _ => match rest with [_; body] => 2 + cost body | _ => 2 end
+      | None => 2 + fold_right (fun y n => cost y + n) 0 rest
+      end
+  | SList (SList _ :: args) => 3 + fold_right (fun y n => cost y + n) 0 args
+  | SList [] => 1
   end%nat.
 Definition costs (l : list sexp) : nat := fold_right (fun y n => cost y + n)%nat 0%nat l.
 
@@ -185,9 +377,10 @@ Proof.
   intros Ht Hp. destruct (is_paren_false a Hp) as [H1 H2].
   unfold step. rewrite (next_maybe_cons s a r Ht). cbn [bind]. now rewrite H1, H2.
 Qed.
-
-Lemma catch_stop_ok {A} (r : res (option A)) v s : r = ROk v s -> catch_stop r = ROk v s.
-Proof. now intros ->. Qed.
+(* one loop iteration on a closing parenthesis *)
+Lemma step_close K r stk s :
+  toks s = ")" :: r -> step K stk s = catch_stop (handle_close K stk (pop1 s)).
+Proof. intros Ht. unfold step. rewrite (next_maybe_cons s _ _ Ht). reflexivity. Qed.
 
 (* what the machine does after reading x: the continuation on the success of [elab] *)
 Definition after (fuel : nat) (stk : stack) (i : item) (s' : pstate) : res (option item) :=
@@ -196,8 +389,6 @@ Definition after (fuel : nat) (stk : stack) (i : item) (s' : pstate) : res (opti
   | l :: r => get_expr fuel ((i :: l) :: r) s'
   end.
 
-(* the machine never turns a successful continuation into StopIteration handling: catch_stop is
-   the identity on the results we follow; for the chaining we need it on whole computations *)
 Lemma catch_stop_get_expr fuel stk s : catch_stop (get_expr fuel stk s) = get_expr fuel stk s.
 Proof.
   destruct fuel as [|f]; [reflexivity|]. cbn [get_expr]. unfold step.
@@ -208,8 +399,22 @@ Proof. destruct stk; [reflexivity | apply catch_stop_get_expr]. Qed.
 
 Lemma fuel_of_S s : exists m, fuel_of s = S m.
 Proof. unfold fuel_of. eauto. Qed.
+Lemma fuel_of_SS s t r : toks s = t :: r -> exists m, fuel_of s = S (S m).
+Proof. intros H. unfold fuel_of. rewrite H. cbn [List.length]. eexists. reflexivity. Qed.
 
-(* the machine on the arguments of an application: each result is pushed on the current frame *)
+Lemma skipn_app_len {A} (a b : list A) : skipn (List.length a) (a ++ b) = b.
+Proof. induction a; cbn; auto. Qed.
+
+(* the closing parenthesis of a frame whose head is [hi] and whose arguments are [its] *)
+Lemma close_frame fuel' stk hi its s2 r i s' :
+  toks s2 = ")" :: r -> call hi its (pop1 s2) = ROk i s' ->
+  get_expr (S fuel') ((rev its ++ [hi]) :: stk) s2 = after fuel' stk i s'.
+Proof.
+  intros T Ec. cbn [get_expr]. rewrite (step_close _ r _ s2 T).
+  unfold handle_close. rewrite rev_app_distr, rev_involutive. cbn [rev app].
+  rewrite Ec. cbn [bind]. fold (after fuel' stk i s'). apply catch_stop_after.
+Qed.
+
 Definition machine_spec (x : sexp) : Prop :=
   forall fuel' stk s i s' rest,
     elab x s = ROk i s' -> toks s = flatten x ++ rest ->
@@ -242,47 +447,107 @@ Proof.
     cbn [cost Nat.add get_expr]. rewrite (step_atom _ a rest stk s Ht Hs).
     unfold handle_atom. rewrite He. cbn [bind]. fold (after fuel' stk i s').
     apply catch_stop_after.
-  - (* application *)
-    destruct l as [|[h|?] args]; try discriminate Hs.
-    cbn [simpleb] in Hs. apply andb_true_iff in Hs. destruct Hs as [Hs Hargs].
-    apply andb_true_iff in Hs. destruct Hs as [Hp Hh]. apply negb_true_iff in Hp.
-    destruct (is_paren_false h Hp) as [Hp1 _].
-    rewrite elab_app in He. apply bind_ok in He. destruct He as (hi & s1 & Eh & He).
-    apply bind_ok in He. destruct He as (its & s2 & El & Ec).
-    inversion IH as [|? ? _ IHargs]; subst.
-    assert (Hspec : Forall machine_spec args).
-    { rewrite Forall_forall in *. intros y Hy. apply IHargs; [exact Hy|].
-      rewrite forallb_forall in Hargs. now apply Hargs. }
-    (* tokens *)
-    cbn [flatten flat_map] in Ht. cbn [app] in Ht.
-    replace ((h :: flat_map flatten args) ++ [")"]) with (h :: flat_map flatten args ++ [")"]) in Ht by reflexivity.
-    cbn [app] in Ht. rewrite <- app_assoc in Ht. cbn [app] in Ht.
-    pose proof (toks_pop1 s _ _ Ht) as Ht1.
-    pose proof (toks_pop1 (pop1 s) _ _ Ht1) as Ht2.
-    (* fuel *)
-    replace (cost (SList (Atom h :: args)) + fuel')%nat with (S (costs args + S fuel'))%nat
-      by (cbn [cost fold_right]; fold (costs args); lia).
-    cbn [get_expr]. unfold step at 1. rewrite (next_maybe_cons s _ _ Ht). cbn [bind].
-    change ("(" =? "(") with true. cbv iota.
-    destruct (fuel_of_S (pop1 s)) as [m ->]. cbn [opens].
-    rewrite (next_tok_cons (pop1 s) _ _ Ht1). cbn [bind]. rewrite Hp1.
-    (* the head *)
-    assert (Hhead : handle_head (get_expr (costs args + S fuel')) h ([] :: stk) (pop1 (pop1 s)) =
-                    get_expr (costs args + S fuel') ([hi] :: stk) s1 /\ toks s1 = flat_map flatten args ++ ")" :: rest).
-    { unfold handle_head. unfold elab_head in Eh. unfold app_head in Hh.
-      destruct (alookup h interpreted_table) as [[| | | | |o]|]; try discriminate Hh.
-      - inversion Eh; subst. split; [reflexivity | exact Ht2].
-      - rewrite Eh. cbn [bind]. split; [reflexivity|].
-        pose proof (atom_same _ _ _ _ Eh) as (Hs1 & _). now rewrite Hs1. }
-    destruct Hhead as [Hhead Ht3]. rewrite Hhead.
-    (* the arguments *)
-    destruct (machine_list args Hspec (S fuel') [hi] stk s1 its s2 (")" :: rest) El Ht3) as [G T].
-    rewrite catch_stop_get_expr, G.
-    (* the closing parenthesis *)
-    cbn [get_expr]. unfold step. rewrite (next_maybe_cons s2 _ _ T). cbn [bind].
-    change (")" =? "(") with false. change (")" =? ")") with true. cbv iota.
-    unfold handle_close. rewrite rev_app_distr, rev_involutive. cbn [rev app].
-    rewrite Ec. cbn [bind]. fold (after fuel' stk i s').
-    pose proof (call_same _ _ _ _ _ Ec) as (Hs' & _).
-    split; [apply catch_stop_after | now rewrite Hs', (toks_pop1 s2 _ _ T)].
+  - destruct l as [|[h|hd] args]; try discriminate Hs.
+    + (* head is an atom *)
+      cbn [simpleb] in Hs. apply andb_true_iff in Hs. destruct Hs as [Hp Hs]. apply negb_true_iff in Hp.
+      destruct (is_paren_false h Hp) as [Hp1 _].
+      inversion IH as [|? ? _ IHargs]; subst.
+      cbn [flatten flat_map] in Ht. cbn [app] in Ht.
+      replace ((h :: flat_map flatten args) ++ [")"]) with (h :: flat_map flatten args ++ [")"]) in Ht by reflexivity.
+      cbn [app] in Ht. rewrite <- app_assoc in Ht. cbn [app] in Ht.
+      pose proof (toks_pop1 s _ _ Ht) as Ht1.
+      pose proof (toks_pop1 (pop1 s) _ _ Ht1) as Ht2.
+      destruct (quant_head h) as [fa|] eqn:Hq.
+      * (* quantifier *)
+        destruct args as [|[?|bs] [|body [|? ?]]]; try discriminate Hs.
+        rewrite (elab_quant h fa bs body s Hq) in He. cbv zeta in He.
+        apply bind_ok in He. destruct He as (vrs & sb & Eq & He).
+        destruct (check_toks (pop1 (pop1 s)) (List.length (flatten (SList bs))) sb) eqn:Hck; [|discriminate].
+        apply bind_ok in He. destruct He as (b & s2 & Eb & Ec).
+        unfold check_toks in Hck. apply list_eqs_eq in Hck. rewrite Ht2 in Hck.
+        cbn [flat_map] in Hck. rewrite <- !app_assoc in Hck. rewrite skipn_app_len in Hck.
+        cbn [app] in Hck.
+        inversion IHargs as [|? ? _ IHb]; subst. inversion IHb as [|? ? Hbody _]; subst.
+        replace (cost (SList [Atom h; SList bs; body]) + fuel')%nat with (S (cost body + S fuel'))%nat
+          by (cbn [cost]; rewrite Hq; lia).
+        cbn [get_expr]. unfold step at 1. rewrite (next_maybe_cons s _ _ Ht). cbn [bind].
+        change ("(" =? "(") with true. cbv iota.
+        destruct (fuel_of_S (pop1 s)) as [m ->]. cbn [opens].
+        rewrite (next_tok_cons (pop1 s) _ _ Ht1). cbn [bind]. rewrite Hp1.
+        unfold handle_head. unfold quant_head in Hq.
+        destruct (alookup h interpreted_table) as [[| |fa'| | |]|]; try discriminate Hq. inversion Hq; subst fa'.
+        rewrite handle_quant_scan, Eq. cbn [bind push_items push_item].
+        rewrite catch_stop_get_expr.
+        destruct (Hbody Hs (S fuel') ([IVars vrs; IQuant fa; IExitQuant] :: stk) sb b s2 (")" :: rest) Eb Hck) as [G T].
+        rewrite G. cbn [after].
+        pose proof (call_same _ _ _ _ _ Ec) as (Hs' & _).
+        apply (close_frame fuel' stk IExitQuant [IQuant fa; IVars vrs; b] s2 rest i s') in Ec; [|exact T].
+        cbn [rev app] in Ec. split; [exact Ec|]. now rewrite Hs', (toks_pop1 s2 _ _ T).
+      * (* application *)
+        apply andb_true_iff in Hs. destruct Hs as [Hh Hargs].
+        rewrite (elab_app h args s Hh) in He. apply bind_ok in He. destruct He as (hi & s1 & Eh & He).
+        apply bind_ok in He. destruct He as (its & s2 & El & Ec).
+        assert (Hspec : Forall machine_spec args).
+        { rewrite Forall_forall in *. intros y Hy. apply IHargs; [exact Hy|].
+          rewrite forallb_forall in Hargs. now apply Hargs. }
+        replace (cost (SList (Atom h :: args)) + fuel')%nat with (S (costs args + S fuel'))%nat
+          by (cbn [cost]; rewrite Hq; fold (costs args); lia).
+        cbn [get_expr]. unfold step at 1. rewrite (next_maybe_cons s _ _ Ht). cbn [bind].
+        change ("(" =? "(") with true. cbv iota.
+        destruct (fuel_of_S (pop1 s)) as [m ->]. cbn [opens].
+        rewrite (next_tok_cons (pop1 s) _ _ Ht1). cbn [bind]. rewrite Hp1.
+        assert (Hhead : handle_head (get_expr (costs args + S fuel')) h ([] :: stk) (pop1 (pop1 s)) =
+                        get_expr (costs args + S fuel') ([hi] :: stk) s1 /\ toks s1 = flat_map flatten args ++ ")" :: rest).
+        { unfold handle_head. unfold elab_head in Eh. unfold app_head in Hh.
+          destruct (alookup h interpreted_table) as [[| | | | |o]|]; try discriminate Hh.
+          - inversion Eh; subst. split; [reflexivity | exact Ht2].
+          - rewrite Eh. cbn [bind]. split; [reflexivity|].
+            pose proof (atom_same _ _ _ _ Eh) as (Hs1 & _). now rewrite Hs1. }
+        destruct Hhead as [Hhead Ht3]. rewrite Hhead.
+        destruct (machine_list args Hspec (S fuel') [hi] stk s1 its s2 (")" :: rest) El Ht3) as [G T].
+        rewrite catch_stop_get_expr, G.
+        pose proof (call_same _ _ _ _ _ Ec) as (Hs' & _).
+        split; [exact (close_frame fuel' stk hi its s2 rest i s' T Ec) | now rewrite Hs', (toks_pop1 s2 _ _ T)].
+    + (* head is an indexed identifier ((_ name idx ..) args) *)
+      destruct hd as [|[u|?] hd']; try discriminate Hs.
+      cbn [simpleb] in Hs. apply andb_true_iff in Hs. destruct Hs as [Hu Hargs]. apply String.eqb_eq in Hu. subst u.
+      inversion IH as [|? ? _ IHargs]; subst.
+      rewrite elab_indexed in He. cbv zeta in He.
+      apply bind_ok in He. destruct He as (th & s2 & Eu & He).
+      destruct (check_toks (pop1 (pop1 (pop1 s))) (List.length (flat_map flatten (tl (Atom "_" :: hd')))) s2) eqn:Hck; [|discriminate].
+      apply bind_ok in He. destruct He as (hi & s3 & Eth & He).
+      apply bind_ok in He. destruct He as (its & s4 & El & Ec).
+      assert (Hspec : Forall machine_spec args).
+      { rewrite Forall_forall in *. intros y Hy. apply IHargs; [exact Hy|].
+        rewrite forallb_forall in Hargs. now apply Hargs. }
+      (* tokens *)
+      assert (Ht' : toks s = "(" :: "(" :: "_" :: flat_map flatten hd' ++ ")" :: flat_map flatten args ++ ")" :: rest).
+      { rewrite Ht. cbn [flatten flat_map app]. repeat (rewrite <- ?app_assoc; cbn [app]). reflexivity. }
+      pose proof (toks_pop1 s _ _ Ht') as Ht1.
+      pose proof (toks_pop1 (pop1 s) _ _ Ht1) as Ht2.
+      pose proof (toks_pop1 (pop1 (pop1 s)) _ _ Ht2) as Ht3.
+      unfold check_toks in Hck. apply list_eqs_eq in Hck. rewrite Ht3 in Hck. cbn [tl] in Hck.
+      rewrite skipn_app_len in Hck.
+      (* fuel *)
+      replace (cost (SList (SList (Atom "_" :: hd') :: args)) + fuel')%nat with (S (S (costs args + S fuel')))%nat
+        by (cbn [cost]; fold (costs args); lia).
+      cbn [get_expr]. unfold step at 1. rewrite (next_maybe_cons s _ _ Ht'). cbn [bind].
+      change ("(" =? "(") with true. cbv iota.
+      destruct (fuel_of_SS (pop1 s) _ _ Ht1) as [m ->]. cbn [opens].
+      rewrite (next_tok_cons (pop1 s) _ _ Ht1). cbn [bind]. change ("(" =? "(") with true. cbv iota.
+      rewrite (next_tok_cons (pop1 (pop1 s)) _ _ Ht2). cbn [bind]. change ("_" =? "(") with false. cbv iota.
+      unfold handle_head. change (alookup "_" interpreted_table) with (Some HUnderscore).
+      rewrite (handle_underscore_item _ _ _ th s2 Eu). unfold push_then. cbn [push_item].
+      change (step (get_expr (costs args + S fuel')) ([th] :: [] :: stk) s2)
+        with (get_expr (S (costs args + S fuel')) ([th] :: [] :: stk) s2).
+      rewrite catch_stop_get_expr.
+      (* the closing parenthesis of the indexed identifier *)
+      pose proof (close_frame (costs args + S fuel') ([] :: stk) th [] s2 _ hi s3 Hck Eth) as Hcl.
+      cbn [rev app] in Hcl. rewrite Hcl. cbn [after].
+      pose proof (call_same _ _ _ _ _ Eth) as (Hs3 & _).
+      assert (T3 : toks s3 = flat_map flatten args ++ ")" :: rest) by (now rewrite Hs3, (toks_pop1 s2 _ _ Hck)).
+      destruct (machine_list args Hspec (S fuel') [hi] stk s3 its s4 (")" :: rest) El T3) as [G T].
+      rewrite G.
+      pose proof (call_same _ _ _ _ _ Ec) as (Hs' & _).
+      split; [exact (close_frame fuel' stk hi its s4 rest i s' T Ec) | now rewrite Hs', (toks_pop1 s4 _ _ T)].
 Qed.
